@@ -139,6 +139,20 @@ static void history_cases(void) {
       vx_input(base.dig ^ ((uint64_t)x << 50) ^ ((uint64_t)(x2 + 1) << 56), 1);
       vx_case_end();
     }
+    /* library-level history: explicit m4ri_fini() (optionally after a call that warmed the caches), heap traffic, m4ri_init(), then Y */
+    for (int warm = 0; warm < 2; warm++) {
+      if (!vx_case_begin("history|%sm4ri_fini;m4ri_init|then|%s#%d", warm ? "mzd_mul;" : "", MENU[y].op, MENU[y].shape)) continue;
+      if (!have) { base = run_owned(oy, sy, 0, -1); have = 1; m4ri_mmc_cleanup(); }
+      if (warm) { const vop *ox = find_op("mzd_mul"); (void)run_owned(ox, &ox->shapes[4 % ox->nshapes], 1, 1); }
+      m4ri_fini();
+      { void *junk[48]; for (int i = 0; i < 48; i++) { junk[i] = vx_malloc(64 + 40 * (size_t)i); memset(junk[i], 0xA5, 64 + 40 * (size_t)i); } for (int i = 0; i < 48; i++) vx_free(junk[i]); }
+      m4ri_init();
+      outcome g = run_owned(oy, sy, 0, -1);
+      char desc[200]; snprintf(desc, sizeof desc, "%s after m4ri_fini() + m4ri_init()", MENU[y].op);
+      compare(oy, "call-history", base, g, desc);
+      vx_input(base.dig ^ (0x77ULL << 50) ^ (uint64_t)warm, 1);
+      vx_case_end();
+    }
   }
 }
 
